@@ -400,10 +400,10 @@ func (d *DNSFilter) refreshFiltersIntl(block, allow, force bool) (int, bool) {
 		toUpd = append(toUpd, toUpdAl...)
 		isNetErr = isNetErr || isNetErrAl
 	}
-	if isNetErr {
-		return 0, true
-	}
 
+	// Enable the updated filters even if all the lists of the other kind have
+	// failed to update.  Otherwise, the new rules, which are already stored,
+	// would only come into force on some later unrelated reload.
 	if updNum != 0 {
 		d.EnableFilters(false)
 
@@ -420,6 +420,10 @@ func (d *DNSFilter) refreshFiltersIntl(block, allow, force bool) (int, bool) {
 				log.Debug("filtering: removing old filter file %q: %s", p, err)
 			}
 		}
+	}
+
+	if isNetErr {
+		return 0, true
 	}
 
 	return updNum, false
